@@ -2,6 +2,7 @@ package props
 
 import (
 	"fmt"
+	"strings"
 
 	lib "github.com/josephburnett/jd/lib"
 
@@ -244,6 +245,21 @@ func init() {
 			},
 		})
 	}
+	p.Strata = append(p.Strata, mon.Stratum{
+		Name: "very-long-lines",
+		N:    qt(40, 800),
+		Run: func(c *mon.Ctx, i int) {
+			long := func() string { return strings.Repeat(gen.Pick(c.R, []string{"x", "ab", "long line "}), c.R.Range(70000, 150000)/2) }
+			a := map[string]any{"a": 1.0, "b": "short", "c": []any{1.0, 2.0}, "z": true}
+			b := map[string]any{"a": 2.0, "b": long(), "c": []any{1.0, long(), 3.0}, "zz": false}
+			if i%2 == 1 {
+				a, b = b, a
+			}
+			m := []V1Set{V1None, V1SetM, V1Mset}[i%3]
+			c.Feature("very_long_line_diffs")
+			c17Judge(c, ref.ToJSON(a), ref.ToJSON(b), m)
+		},
+	})
 	p.Strata = append(p.Strata, mon.Stratum{
 		Name: "cli-v2-false-pipeline",
 		CLI:  true,
